@@ -105,6 +105,30 @@ def enumerate_cases(tier, shard, nshards, seed):
             if k % nshards == shard and not (tier == 'quick' and (k * 2654435761 + seed * 40503) % 2 and False):
                 yield {'src': src, 'targets': [list(job)], 'grid': True}
 
+    # every node of the multi-line-string programs x docstr in (default, False, 'strict') x (copy, get); statement windows likewise
+    for src in gen.DOCSTR_PROGRAMS:
+        tree = ast.parse(src)
+
+        for ti in range(len(em.node_targets(tree))):
+            for osel in (0, 13, 14):
+                for mode in (0, 1):
+                    k += 1
+
+                    if k % nshards == shard:
+                        yield {'src': src, 'targets': [[ti, osel, 0, 0, mode]], 'grid': True}
+
+        for ci, (parent, field, n) in enumerate(em.container_targets(tree)):
+            if em.slice_kind(parent, field) != 'stmts' or n is None:
+                continue
+
+            for a in range(0, n + 1):
+                for b in range(a + 1, n + 1):
+                    for osel in (0, 13, 14):
+                        k += 1
+
+                        if k % nshards == shard:
+                            yield {'src': src, 'targets': [[ci, osel, a, b if b < n else 7, 3]], 'grid': True}
+
 
 _WS_CONT = re.compile(r'\n[ \t]+')
 
@@ -141,6 +165,47 @@ def norm_dump(a):
     docstring re-indentation on copy must not count as a structural difference."""
 
     return re.sub(r'\\n(?: |\\t)+', r'\\n', S0(a))
+
+
+_DOC_OWNERS = (ast.Module, ast.ClassDef, ast.FunctionDef, ast.AsyncFunctionDef)
+
+
+def docstr_dump(a, docstr):
+    """Like `norm_dump`, but whitespace after a newline is only erased inside the string constants which option `docstr` allows to be re-indented
+    (docs: True = every multi-line string expression statement, 'strict' = only the first statement of a module / class / def, False = none). A
+    string statement at the top of `a` is always erased: whether it sits in a docstring position depends on where it is looked at from."""
+
+    allowed = []
+    tops = a.body if isinstance(a, ast.Module) else [a]
+
+    for top in tops:
+        if isinstance(top, ast.Expr) and isinstance(top.value, ast.Constant) and isinstance(top.value.value, str):
+            allowed.append(top.value)
+
+    if docstr is not False:
+        for n in ast.walk(a):
+            for fld in ('body', 'orelse', 'finalbody'):
+                body = getattr(n, fld, None)
+
+                if not isinstance(body, list):
+                    continue
+
+                for k, st_ in enumerate(body):
+                    if isinstance(st_, ast.Expr) and isinstance(st_.value, ast.Constant) and isinstance(st_.value.value, str):
+                        if docstr is True or (k == 0 and fld == 'body' and isinstance(n, _DOC_OWNERS)):
+                            allowed.append(st_.value)
+
+    saved = [(c, c.value) for c in allowed]
+
+    try:
+        for c, v in saved:
+            c.value = re.sub(r'\n[ \t]+', '\n', v)
+
+        return S0(a)
+
+    finally:
+        for c, v in saved:
+            c.value = v
 
 
 def sig(e):
@@ -424,13 +489,26 @@ def execute(case, ctx):
                         elif not exp and parent.__class__.__name__ == 'Set':
                             got = []  # normalised empty set is `{*()}`
 
+                        if got != exp and '\\\n' in piece.src and len(got) == len(exp) and all(
+                                g == e or (isinstance(g, str) and isinstance(e, str) and re.sub(r'(?: |\\t)+', '', g) == re.sub(r'(?: |\\t)+', '', e)) for g, e in zip(got, exp)):
+                            ctx.count('docstring_reindent_whitespace_tolerated')  # a backslash continuation inside a string statement: re-indentation reaches into the value
+                            got = exp
+
                         if got != exp:
                             raise Violation('C07.slice_elements', f'{desc}: piece holds {len(got)} elements, original[{lo}:{hi}] has {len(exp)}; first difference: '
                                             f'{next(((g, e) for g, e in zip(got, exp) if g != e), (got[len(exp):len(exp) + 1], exp[len(got):len(got) + 1]))!r}\n--- piece ---\n{piece.src[:400]}', site)
             else:
                 a, b = norm_dump(piece.a), norm_dump(node)
 
-                if a != b and re.sub(r'(?: |\\t)+', '', a) == re.sub(r'(?: |\\t)+', '', b) and ('"""' in piece.src or "'''" in piece.src):
+                if a == b and piece.a.__class__ is node.__class__:
+                    da, db = docstr_dump(piece.a, opts.get('docstr', True)), docstr_dump(node, opts.get('docstr', True))
+                    ctx.count('docstr_option_respected_checked')
+
+                    if da != db:
+                        raise Violation('C07.docstr_option', f'{desc}: a string which option docstr={opts.get("docstr", True)!r} does not allow to be re-indented changed its value '
+                                        f'{first_diff(da, db)}\n--- piece ---\n{piece.src[:400]}', site)
+
+                if a != b and re.sub(r'(?: |\\t)+', '', a) == re.sub(r'(?: |\\t)+', '', b) and ('"""' in piece.src or "'''" in piece.src or '\\\n' in piece.src):
                     ctx.count('docstring_reindent_whitespace_tolerated')  # re-indentation reaches into the value through a backslash continuation inside the string
                     a = b
 
